@@ -222,8 +222,15 @@ func cmdCheck(mode string, args []string) {
 				continue
 			}
 			if !generated[n] {
-				cls := fn + "#" + classOf(n)
-				vanishedByFuncClass[cls] = append(vanishedByFuncClass[cls], n)
+				switch classOf(n) {
+				case "post", "pre", "callsite", "inv-init", "inv-pres", "variant", "vacuity":
+					// a contract clause that can no longer be attached to the code (its call site,
+					// loop or function shape is gone): the claimed obligation cannot be re-established
+					report(n, "contract-derived obligation is no longer generated from the changed code (the call site / loop / clause it was attached to is gone)", "", true)
+				default:
+					cls := fn + "#" + classOf(n)
+					vanishedByFuncClass[cls] = append(vanishedByFuncClass[cls], n)
+				}
 			}
 			continue
 		}
